@@ -767,8 +767,8 @@ func c19ExecRecv(sc c19RecvScenario) (res pbt.Result) {
 	x := c19Enc{now: time.Now().Unix()}
 	want := c19Want{sil: map[string]c19Sil{}, ent: map[string]c19Ent{}, exempt: map[string]bool{}}
 	ctx := context.Background()
-	foreignSilence := false     // a silence that is not one of the well-formed generated ones may have been taken
-	var poisonIDs []string      // ids of decodable silences whose matchers do not compile
+	foreignSilence := false         // a silence that is not one of the well-formed generated ones may have been taken
+	var poisonIDs []string          // ids of decodable silences whose matchers do not compile
 	position := map[string]string{} // item -> where it was delivered (for messages)
 	failingBefore := map[string]bool{}
 
